@@ -15,7 +15,7 @@ import predlib as P
 ID = 'C01'
 PROGRAMS = {'core': dict(crate='vaporetto', features=['train', 'kytea'])}
 UNIT_CAP = 200
-BUDGET_S = {'quick': 280, 'thorough': 2400}
+BUDGET_S = {'quick': 600, 'thorough': 1200}      # wall-clock safety caps (exceeding one is reported as inconclusive); typical quick runs take 1-200 s
 
 # model shapes: concrete pattern strings / window sizes; all weights and the bias are symbolic
 SHAPES = {
